@@ -54,7 +54,7 @@ def tmatch(pat, t, sigma):
 class DbGen:
     def __init__(self, rng, opts=None):
         self.rng = rng
-        self.o = dict(inner_var_block=False, normal_proofs=0.08, top_essential=0.2, early_essential=0.15, spare_dv=0.3, junk=0.15,
+        self.o = dict(inner_var_block=False, normal_proofs=0.08, top_essential=0.2, early_essential=0.15, spare_dv=0.3, restate_hyp=0.12, junk=0.15,
                       wff=0.35, nested_axiom_blocks=0.25, sugar=0.2)
         if opts:
             self.o.update(opts)
@@ -334,7 +334,11 @@ class DbGen:
                 pool.append((self.unflat_hyp(h[0], ants), (h[0], [])))
         facts = [p for p in pool if p[0] is not None]
         derived = []
-        for _ in range(r.randint(1, 4)):
+        if facts and r.random() < self.o['restate_hyp']:
+            # proved from a mandatory hypothesis alone: the compressed proof has an EMPTY label list `( ) <letter>`
+            derived.append(r.choice(facts))
+            self.info['features'].add('empty-label-list')
+        for _ in range(0 if derived else r.randint(1, 4)):
             for _try in range(6):
                 al = r.choice(self.asserts)
                 ent = sc.labels.get(al)
